@@ -61,7 +61,8 @@ Definition mon_C04 (c : dcase) : N :=
     [mark_for_recovery], re-connection [reconnect_uplink], re-registration).  After every step
     the harness counts the stream-data datagrams that reached each uplink's receiver socket. *)
 Record fstep := mkFS {
-  fs_kind : Z;              (* 0 client datagram, 1 flush tick, 2 soft reset, 3 reconnect, 4 REG3, 5 idle time *)
+  fs_kind : Z;              (* 0 client datagram, 1 flush tick, 2 soft reset, 3 reconnect, 4 REG3, 5 idle time,
+                               6 REG_ERR from the receiver on one uplink (its queue flushed first) *)
   fs_pre_conn : list bool;  (* connected flag of every link BEFORE the step *)
   fs_tx : list Z;           (* stream-data datagrams that reached each link's receiver during the step *)
   fs_queue : list Z         (* queue depth of every link after the step *)
